@@ -15,8 +15,10 @@ def main():
         except Exception:
             traceback.print_exc()
             text = None
-        if text is not None:
-            leanio.write_if_changed(os.path.join(LEAN, "Generated", p + ".lean"), text)
+        if isinstance(text, str):
+            text = {p: text}
+        for fname, body in (text or {}).items():
+            leanio.write_if_changed(os.path.join(LEAN, "Generated", fname + ".lean"), body)
     ok, out, dt = leanio.lake_build(["kdriver"] + ["Theorems." + p for p in props], timeout=6000)
     print(out[-3000:])
     print("setup build ok=%s in %.0fs" % (ok, dt))
